@@ -49,8 +49,9 @@ func init() {
 }
 
 type topField struct {
-	name     string
-	position *ast.Position
+	name        string
+	responseKey string
+	position    *ast.Position
 }
 
 func retrieveTopFieldNames(selectionSet ast.SelectionSet) []*topField {
@@ -61,9 +62,14 @@ func retrieveTopFieldNames(selectionSet ast.SelectionSet) []*topField {
 		for _, selection := range selectionSet {
 			switch selection := selection.(type) {
 			case *ast.Field:
+				responseKey := selection.Name
+				if selection.Alias != "" {
+					responseKey = selection.Alias
+				}
 				fields = append(fields, &topField{
-					name:     selection.Name,
-					position: selection.GetPosition(),
+					name:        selection.Name,
+					responseKey: responseKey,
+					position:    selection.GetPosition(),
 				})
 			case *ast.InlineFragment:
 				walk(selection.SelectionSet)
@@ -83,11 +89,12 @@ func retrieveTopFieldNames(selectionSet ast.SelectionSet) []*topField {
 
 	seen := make(map[string]bool, len(fields))
 	uniquedFields := make([]*topField, 0, len(fields))
+	// a subscription selects one response key, whatever fields are behind the keys
 	for _, field := range fields {
-		if !seen[field.name] {
+		if !seen[field.responseKey] {
 			uniquedFields = append(uniquedFields, field)
 		}
-		seen[field.name] = true
+		seen[field.responseKey] = true
 	}
 	return uniquedFields
 }
